@@ -135,6 +135,16 @@ func (a *AcctRequest) MarshalBinary() ([]byte, error) {
 	if err := a.Validate(); err != nil {
 		return nil, err
 	}
+	if err := checkLengthFits(
+		lengthFit{"AcctRequest.User", a.User.Len(), maxUint8Len},
+		lengthFit{"AcctRequest.Port", a.Port.Len(), maxUint8Len},
+		lengthFit{"AcctRequest.RemAddr", a.RemAddr.Len(), maxUint8Len},
+	); err != nil {
+		return nil, err
+	}
+	if err := checkArgsFit(a.Args); err != nil {
+		return nil, err
+	}
 	buf := make([]byte, 0, AcctRequestLen)
 	buf = append(buf, uint8(a.Flags))
 	buf = append(buf, uint8(a.Method))
@@ -298,6 +308,12 @@ func (a *AcctReply) Validate() error {
 func (a *AcctReply) MarshalBinary() ([]byte, error) {
 	// validate
 	if err := a.Validate(); err != nil {
+		return nil, err
+	}
+	if err := checkLengthFits(
+		lengthFit{"AcctReply.ServerMsg", a.ServerMsg.Len(), maxUint16Len},
+		lengthFit{"AcctReply.Data", a.Data.Len(), maxUint16Len},
+	); err != nil {
 		return nil, err
 	}
 	buf := make([]byte, 0, AcctReplyLen)
